@@ -216,10 +216,46 @@ mut("C11-cutoff-float", ABS, "message_pairing[1].time = message_pairing[0].time 
 mut("C11-detok-capacity-float", TOK, "        cur_bar_capacity_total = int(self.ppqn * 4 * cur_time_signature_numerator / cur_time_signature_denominator)\n        cur_bar_capacity_remaining = cur_bar_capacity_total\n        prv_track = 0", "        cur_bar_capacity_total = self.ppqn * 4 * cur_time_signature_numerator / cur_time_signature_denominator\n        cur_bar_capacity_remaining = cur_bar_capacity_total\n        prv_track = 0", ["C11"])
 mut("C11-pad-float", REL, "Message(message_type=MessageType.WAIT, channel=default_channel, time=padding_length - current_length))", "Message(message_type=MessageType.WAIT, channel=default_channel, time=(padding_length - current_length) / 1))", ["C11"])
 
+# C12
+mut("C12-time-buffer-not-reset-after-ts", MTR, "                track.append(mido.MetaMessage(\"time_signature\", numerator=msg.numerator, denominator=msg.denominator,\n                                              time=int(time_buffer)))\n                time_buffer = 0", "                track.append(mido.MetaMessage(\"time_signature\", numerator=msg.numerator, denominator=msg.denominator,\n                                              time=int(time_buffer)))", ["C12"])
+mut("C12-reset-in-wait-branch", MTR, "            elif msg.message_type == MessageType.WAIT:\n                pass", "            elif msg.message_type == MessageType.WAIT:\n                time_buffer = msg.time", ["C12"])
+mut("C12-key-table-entry", MTH, '"Cb": Key.C_B,\n', '"Cb": Key.B,\n', ["C12"])
+mut("C12-velocity-default-always", MTR, "velocity=msg.velocity if msg.velocity is not None else 127,", "velocity=127 if msg.velocity is not None else 127,", ["C12"])
+mut("C12-meta-routing-index-0", MF, "        meta_track = merged_sequences[meta_track_index]", "        meta_track = merged_sequences[0]", ["C12", "C13"])
+mut("C12-default-ts-missing", MF, "        if not any(timing_tuple[0] == 0 for timing_tuple in", "        if False and not any(timing_tuple[0] == 0 for timing_tuple in", ["C12"])
+mut("C12-cc-steals-delta", MTR, "            if hasattr(msg, \"time\") and msg.time is not None:\n                time_buffer += msg.time", "            if hasattr(msg, \"time\") and msg.time is not None and msg.message_type != MessageType.PROGRAM_CHANGE:\n                time_buffer += msg.time\n            if msg.message_type == MessageType.PROGRAM_CHANGE:\n                time_buffer = 0", ["C12"])
+mut("C12-note-off-as-note-on", MTR, 'track.append(mido.Message("note_off", note=msg.note, velocity=0, time=int(time_buffer)))', 'track.append(mido.Message("note_on", note=msg.note, velocity=1, time=int(time_buffer)))', ["C12"])
+
+# C13
+mut("C13-round-each-delta", MF, "                current_point_in_time += (msg.time * scaling_factor)\n                rounded_point_in_time = round(current_point_in_time)", "                current_point_in_time += round(msg.time * scaling_factor)\n                rounded_point_in_time = round(current_point_in_time)", ["C13"])
+mut("C13-int-instead-of-round", MF, "rounded_point_in_time = round(current_point_in_time)", "rounded_point_in_time = int(current_point_in_time)", ["C13"])
+mut("C13-first-group-always", MF, "                group_indices = next(array for array in track_indices if i in array)", "                group_indices = next(array for array in track_indices if i in array or True)", ["C13"])
+mut("C13-meta-only-notes-kept", MF, "                if msg.message_type == MessageType.NOTE_ON and any(i in indices for indices in track_indices):", "                if msg.message_type == MessageType.NOTE_ON:", ["C13"])
+mut("C13-velocity-zero-note-on", MM, '        if mido_message.type == "note_on" and mido_message.velocity > 0:', '        if mido_message.type == "note_on" and mido_message.velocity >= 0:', ["C13"])
+mut("C13-scaling-int-division", MF, "        scaling_factor = PPQN / self.PPQN", "        scaling_factor = (PPQN // self.PPQN) if PPQN >= self.PPQN else PPQN / self.PPQN", ["C13"])
+mut("C13-ignored-meta-delta-lost", MF, "                current_point_in_time += (msg.time * scaling_factor)", "                current_point_in_time += (msg.time * scaling_factor) if msg.message_type is not None else 0", ["C13"])
+mut("C13-ungrouped-meta-track-skipped", MF, "            if not any(i in indices for indices in track_indices) and i not in meta_track_indices:\n                continue", "            if not any(i in indices for indices in track_indices):\n                continue", ["C13"])
+mut("C13-key-minor-map", MTH, '"Am": Key.C, "Em": Key.G,', '"Am": Key.A, "Em": Key.G,', ["C13"])
+
+# C16
+mut("C16-abstract-copy-shallow", ABSTRACT, "cpy = self.__class__(messages=[msg.copy() for msg in self._messages])", "cpy = self.__class__(messages=[msg for msg in self._messages])", ["C16"])
+mut("C16-message-copy-omits-velocity", MSG, "            velocity=self.velocity,\n            control=self.control,\n            program=self.program,\n            numerator=self.numerator,\n            denominator=self.denominator,\n            key=self.key\n        )\n        return cpy", "            control=self.control,\n            program=self.program,\n            numerator=self.numerator,\n            denominator=self.denominator,\n            key=self.key\n        )\n        return cpy", ["C16"])
+mut("C16-sequence-copy-stale-view", SEQ, "        cpy_abs = None\n        if not self._abs_stale:\n            cpy_abs = self.abs.copy()", "        cpy_abs = None\n        if self._abs is not None if hasattr(self, '_abs') else False:\n            cpy_abs = self._abs.copy()", ["C16", "C04"])
+mut("C16-track-copy-shares-bars", TRK, "cpy = self.__class__([bar.copy() for bar in self.bars], self.name)", "cpy = self.__class__([bar for bar in self.bars], self.name)", ["C16"])
+mut("C16-composition-copy-shares-tracks", CMP, "cpy = self.__class__([track.copy() for track in self.tracks])", "cpy = self.__class__([track for track in self.tracks])", ["C16"])
+mut("C16-split-remainder-shared", REL, "            current_sequence._messages.extend([msg for msg in working_memory])", "            current_sequence._messages.extend([msg for msg in self._messages[len(self._messages) - len(working_memory):]])", ["C16"])
+
 
 def run(cmd, env):
-    p = subprocess.run(cmd, cwd=ROOT, env=env, capture_output=True, text=True)
-    return p.returncode, p.stdout + p.stderr
+    import signal
+    p = subprocess.Popen(cmd, cwd=ROOT, env=env, stdout=subprocess.PIPE, stderr=subprocess.STDOUT, text=True, start_new_session=True)
+    try:
+        outp, _ = p.communicate(timeout=float(os.environ.get("MUT_TIMEOUT", "400")))
+    except subprocess.TimeoutExpired:
+        os.killpg(p.pid, signal.SIGKILL)
+        p.wait()
+        return 3, "TIMEOUT"
+    return p.returncode, outp
 
 
 def main():
@@ -262,7 +298,7 @@ def main():
             verdict = "CAUGHT" if all(r[0] == 1 for r in res) else ("PARTIAL" if any(r[0] == 1 for r in res) else "MISSED")
             if any(r[0] == 2 for r in res):
                 verdict += "+HARNESS-ERROR"
-            print(f"{verdict:8s} {name:32s} {pid}  rc={[r[0] for r in res]}  {res[0][1]}")
+            print(f"{verdict:8s} {name:32s} {pid}  rc={[r[0] for r in res]}  {res[0][1]}", flush=True)
             summary.append((name, pid, verdict))
         shutil.rmtree(scratch, ignore_errors=True)
     bad = [s for s in summary if s[2] != "CAUGHT"]
